@@ -99,7 +99,7 @@ let listing_matches (s : state) (real : (int list * int list * int list) option)
    A goroutine logs a sub-step after performing it, so another goroutine can observe the effect and log its
    own event first: when an event is not enabled, it is retried after one in-flight sub-step of another
    goroutine (its own log line, arriving later, is then skipped). *)
-let max_window = ref 0 and races = ref 0
+let max_window = ref 0 and races = ref 0 and max_window_at_purge = ref (-1) and snap_purges = ref 0
 let note_state (s : state) =
   let w = List.length (List.filter (fun (_, p) -> p = SnFile) s.sns) in
   if w > !max_window then max_window := w
@@ -110,7 +110,12 @@ let run_events (c : config) (s : state) (evs : (string * event) list) : (state, 
     | [] -> Stdlib.Ok s
     | (txt, e) :: t ->
       if List.mem e pend then go s (remove_first e pend) (pos + 1) t
-      else
+      else begin
+        (match e with
+         | EvPgBefore k when int_of_n k = 4 ->
+           let w = List.length (List.filter (fun (_, p) -> p = SnFile) s.sns) in
+           incr snap_purges; if w > !max_window_at_purge then max_window_at_purge := w
+         | _ -> ());
         (match step c s e with
          | Ok s' -> note_state s'; go s' pend (pos + 1) t
          | Err code ->
@@ -127,7 +132,8 @@ let run_events (c : config) (s : state) (evs : (string * event) list) : (state, 
                       | Stdlib.Error _ as err -> (match try_inflight xs with Stdlib.Ok r -> Stdlib.Ok r | Stdlib.Error _ -> err))
                    | Err _ -> try_inflight xs)
                 | Err _ -> try_inflight xs) in
-           try_inflight (List.filter (fun x -> match x with EvCkPartial | EvRcChosen _ | EvRcNone | EvRcRestored _ -> false | _ -> true) (inflight s))) in
+           try_inflight (List.filter (fun x -> match x with EvCkPartial | EvRcChosen _ | EvRcNone | EvRcRestored _ -> false | _ -> true) (inflight s)))
+      end in
   go s [] 0 evs
 
 (* all states reachable by completing a subset of the in-flight sub-steps (fewest completions first) *)
@@ -231,4 +237,4 @@ let () =
     | _ -> ())
   ;
   (let oc = open_out "model.stats" in
-   Printf.fprintf oc "max_window %d\nlog_order_races %d\n" !max_window !races; close_out oc)
+   Printf.fprintf oc "max_window %d\nlog_order_races %d\nmax_window_at_snap_purge %d\nsnap_purge_decisions %d\n" !max_window !races !max_window_at_purge !snap_purges; close_out oc)
